@@ -167,8 +167,13 @@ def run(repo: Repo, rep: Report, tier: str) -> None:
     for e in c.errors:
         rep.undecide("corpus", e)
     r09_4(repo, rep, c)
-
+    from . import c05 as _c05
+    from ..core.report import Only as _Only
+    _c05._exception_classes(repo, _Only(rep, {"R05.11"}))
 
 _ADDENDUM = " R09.5: get_discriminator(look_in_parents) walks the whole MRO, nearest first, through each class's own Config. R09.6: dataclass_fields drops an inherited Field when the class re-annotates the name without a Field of its own (no inherited alias / options)."
 EXPLANATION += _ADDENDUM
 LEVEL_TEXT += _ADDENDUM
+_ADD6 = ' Borrowed: R05.11 (ExtraKeysError and the other exceptions report the objects they were given).'
+EXPLANATION += _ADD6
+LEVEL_TEXT += _ADD6
